@@ -1,6 +1,7 @@
 import PsiModel.EpochsExt
 import PsiProofs.C18
 import PsiProofs.Helper.C18Ext_Search
+import PsiProofs.Helper.C18Ext_Bits
 /-!
 EXT18 — theorems about helpers of util.py that property C18 does not name (NOT part of `./check C18`;
 registry `lean/registry/EXT18.txt`).
@@ -123,5 +124,75 @@ example : overlap1 [(1, 3)] (1, 3) = false ∧ overlap1 [(1, 3)] (1, 2) = false 
 example : overlap1 [(0, 9), (2, 3)] (1, 5) = false ∧
     (∃ p ∈ [((0 : Int), (9 : Int)), (2, 3)], p.1 < (1 : Int) ∧ (5 : Int) ≤ p.2) := by
   refine ⟨by decide, (0, 9), by simp, by decide, by decide⟩
+
+/-! ### `bin_array`, `int_to_TTL` -/
+
+/-- `util.bin_array(number, bits)` has `max(bits, 0)` entries. -/
+theorem bin_array_length (n w : Int) : (binArray n w).length = w.toNat := by
+  simp [binArray]
+
+/-- entry `k` is bit `k` of the two's-complement representation (`Int.testBit`), for either sign. -/
+theorem bin_array_bit (n w : Int) (k : Nat) (hk : k < (binArray n w).length) :
+    (binArray n w)[k] = if n.testBit k then 1 else 0 := by
+  simp only [binArray, List.getElem_map, List.getElem_range]
+  exact bitOf_eq_testBit n k
+
+/-- round trip: the little-endian value of the list is `number mod 2^bits`
+(for a negative number: its two's-complement residue). -/
+theorem bin_array_round_trip (n w : Int) : fromBits (binArray n w) = n % 2 ^ w.toNat := by
+  rw [binArray_eq, fromBits_bitsN]
+
+example : binArray 8 4 = [0, 0, 0, 1] ∧ binArray 3 4 = [1, 1, 0, 0] ∧ binArray (-3) 4 = [1, 0, 1, 1] ∧
+    binArray 5 (-1) = [] ∧ fromBits (binArray (-3) 4) = 13 := by decide
+
+/-- `util.int_to_TTL(a, width)` outside the one raising input: `max(width, 0)` rows, row `k` holds bit `k` of every
+entry.  Guard = not (empty Python sequence and `width > 0`), see `int_to_TTL_empty_sequence_raises`. -/
+theorem int_to_TTL_bits_partial (es : Bool) (a : List Int) (w : Int)
+    (guard : ¬ (es = true ∧ a = [] ∧ 0 < w)) :
+    intToTTL es a w = .ok ((List.range w.toNat).map (fun k => a.map (fun v => v.testBit k))) := by
+  unfold intToTTL
+  have hg : (es && a.isEmpty && decide (0 < w)) = false := by
+    cases es <;> cases a <;> simp_all
+  rw [hg]
+  simp only [Bool.false_eq_true, if_false]
+  congr 1
+  apply List.map_congr_left
+  intro k _
+  apply List.map_congr_left
+  intro v _
+  rw [bitOf_eq_testBit]
+  cases v.testBit k <;> simp
+
+/-- round trip per column: reading column `j` of the returned table little-endian gives `a[j] mod 2^width`. -/
+theorem int_to_TTL_round_trip_partial (es : Bool) (a : List Int) (w : Int)
+    (guard : ¬ (es = true ∧ a = [] ∧ 0 < w)) :
+    ∃ rows, intToTTL es a w = .ok rows ∧ rows.length = w.toNat ∧ (∀ r ∈ rows, r.length = a.length) ∧
+      ∀ (j : Nat) (hj : j < a.length),
+        fromBits (rows.map (fun r => if r[j]? = some true then 1 else 0)) = a[j] % 2 ^ w.toNat := by
+  refine ⟨_, int_to_TTL_bits_partial es a w guard, by simp, ?_, ?_⟩
+  · intro r hr
+    obtain ⟨k, _, rfl⟩ := List.mem_map.mp hr
+    simp
+  · intro j hj
+    rw [← fromBits_bitsN]
+    congr 1
+    simp only [bitsN, List.map_map]
+    apply List.map_congr_left
+    intro k _
+    simp only [Function.comp, List.getElem?_map, List.getElem?_eq_getElem hj, Option.map_some,
+      Option.some.injEq]
+    rw [bitOf_eq_testBit]
+
+/-- the excluded input: an empty Python sequence is a float64 array for NumPy, and `a >> bit` raises TypeError
+as soon as `width ≥ 1`. -/
+theorem int_to_TTL_empty_sequence_raises (w : Int) (hw : 0 < w) :
+    intToTTL true [] w = .error .typeError := by
+  simp [intToTTL, hw]
+
+example : intToTTL true [4, 8, 5] 6 = .ok [[false, false, true], [false, false, false], [true, false, true],
+    [false, true, false], [false, false, false], [false, false, false]] := by decide
+example : ¬ (true = true ∧ ([4, 8, 5] : List Int) = [] ∧ (0 : Int) < 6) := by simp
+example : intToTTL true [] 1 = .error .typeError ∧ intToTTL false [] 1 = .ok [[]] ∧ intToTTL true [] 0 = .ok [] := by
+  decide
 
 end Psi.EpochsExt
